@@ -190,6 +190,25 @@ def run(ctx):
             f"after re-addressing: lookup(old) -> {'None' if r_old is None else 'a record'}, lookup(new) is the record: {r_new is a}, auto-create(old) makes a new record: {isinstance(a2, AObj) and a2 is not a}, len {n1} -> {n2}", s
     scenario("patch-address-then-lookup", s_readdress, "lookup/identity")
 
+    def s_readdress_direct(I):
+        # the record is re-addressed through its own patch() (part of the property's alphabet), not through the storage:
+        # lookups must follow the record's current address, whatever earlier lookups returned
+        s = fresh(I)
+        a = I.call(mi, [s], {"address": A, "auto_create": True})
+        I.call(mi, [s], {"address": A})
+        I.call(repo.find_method(sci, "match_attr"), [s, "address_in", A], {})
+        C = ("10.7.7.7", 40007)
+        I.call(repo.find_method(a.cls, "patch"), [a, {"address_in": C}], {})
+        r_old = I.call(mi, [s], {"address": A})
+        r_new = I.call(mi, [s], {"address": C})
+        n1 = I.call(ln, [s], {})
+        a2 = I.call(mi, [s], {"address": A, "auto_create": True})
+        n2 = I.call(ln, [s], {})
+        return r_old is None and r_new is a and n1 == 1 and isinstance(a2, AObj) and a2 is not a and n2 == 2, \
+            f"after the record's own patch(address_in): lookup(old) -> {'None' if r_old is None else 'a record'}, lookup(new) is the record: {r_new is a}, " \
+            f"auto-create(old) makes a new record: {isinstance(a2, AObj) and a2 is not a}, len {n1} -> {n2}", s
+    scenario("record-patched-directly-then-lookup", s_readdress_direct, "lookup/identity")
+
     def s_patch_id(I):
         s = fresh(I)
         a = I.call(mi, [s], {"address": A, "auto_create": True})
